@@ -87,7 +87,7 @@ def svd(x, full_matrices=True, compute_uv=True, **kw):
   m, n = x.shape[-2], x.shape[-1]
   if full_matrices:
     raise Unsupported("svd with full_matrices=True")
-  k = seq.b_min(m, n)
+  k = m if sym.prove(m <= n) else (n if sym.prove(n <= m) else seq.b_min(m, n))
   s = SortedOpaque("svd_s", x.shape[:-2] + (k,), descending=True, nonneg=True, dtype=x.dtype).t
   u = T.opaque("svd_u", x.shape[:-2] + (m, k), x.dtype)
   vt = T.opaque("svd_vt", x.shape[:-2] + (k, n), x.dtype)
@@ -104,10 +104,11 @@ def svd(x, full_matrices=True, compute_uv=True, **kw):
 def qr(x, mode="reduced"):
   x = T.asarray(x)
   m, n = x.shape
-  k = seq.b_min(m, n)
+  k = m if sym.prove(m <= n) else (n if sym.prove(n <= m) else seq.b_min(m, n))
   if mode == "r":
     r = T.opaque("qr_r", (k, n), x.dtype)
     r.tags["qr_r_of"] = x
+    cur().ghost["last_qr_input"] = x
     cur().axioms_used.add("qr(mode='r'): R^T R = X^T X (opaque)")
     return r
   raise Unsupported("qr mode " + mode)
